@@ -25,17 +25,17 @@ type deferred struct {
 
 // frame is one function activation being lowered (top-level or inlined).
 type frame struct {
-	fi       *FuncInfo
-	prefix   string
-	objVar   map[types.Object]string
-	results  []string
-	resTypes []types.Type
-	retBlock *Block
-	defers   []*deferred
-	parent   *frame
-	depth    int
-	loopOrd  int
-	contract *Contract
+	fi         *FuncInfo
+	prefix     string
+	objVar     map[types.Object]string
+	results    []string
+	resTypes   []types.Type
+	retBlock   *Block
+	defers     []*deferred
+	parent     *frame
+	depth      int
+	loopOrd    int
+	contract   *Contract
 	deferGuard map[*ast.DeferStmt]string
 	concrete   map[types.Object]types.Type // interface parameters known to hold a concrete type (inlined calls)
 }
@@ -48,47 +48,47 @@ type targets struct {
 }
 
 type Lowerer struct {
-	p     *Prog
-	f     *FuncIVL
-	cur   *Block // nil = unreachable
-	fr    *frame
-	tg    *targets
-	labels map[string]*Block
-	tmpN  int
-	inlN  int
-	obOrd map[string]int
-	spec  bool // translating a spec expression (no obligations emitted)
-	oldRename func(string) string // non-nil while inside old(...)
-	env   []map[string]envEntry
-	guard []*Term // path guard inside short-circuit value expressions
-	fnKey string
-	curProps []string
-	noSafety bool
-	escaped map[string]bool // locals captured and assigned by escaping closures
-	escapedHeap map[string]bool
-	callSnap int
-	quantN int
-	inlineStack []string
-	held map[string]bool
-	oldFn func(string) string // what old(...) means in the clause being translated
+	p                *Prog
+	f                *FuncIVL
+	cur              *Block // nil = unreachable
+	fr               *frame
+	tg               *targets
+	labels           map[string]*Block
+	tmpN             int
+	inlN             int
+	obOrd            map[string]int
+	spec             bool                // translating a spec expression (no obligations emitted)
+	oldRename        func(string) string // non-nil while inside old(...)
+	env              []map[string]envEntry
+	guard            []*Term // path guard inside short-circuit value expressions
+	fnKey            string
+	curProps         []string
+	noSafety         bool
+	escaped          map[string]bool // locals captured and assigned by escaping closures
+	escapedHeap      map[string]bool
+	callSnap         int
+	quantN           int
+	inlineStack      []string
+	held             map[string]bool
+	oldFn            func(string) string // what old(...) means in the clause being translated
 	decoderRemaining func() *Term
-	labelSeen map[string]bool
-	mapsHavocked bool
-	pendingFrame func()
-	assumedIn *Block
-	assumed map[string]bool
-	afterCall []func()
-	acqPoints []acqPoint
-	itPoints  []acqPoint
-	initializing map[string]bool // objects being constructed (composite literal): not yet shared
-	topEnv   map[string]envEntry
-	topChain []*Contract
-	topEnss  []*Clause
-	topCt    *Contract
-	siteOrd map[string]int
-	backLabels map[string]bool
-	gotoLoops  map[string]*gotoLoop
-	specPos token.Pos // when set, spec identifiers resolve in the scope at this source position
+	labelSeen        map[string]bool
+	mapsHavocked     bool
+	pendingFrame     func()
+	assumedIn        *Block
+	assumed          map[string]bool
+	afterCall        []func()
+	acqPoints        []acqPoint
+	itPoints         []acqPoint
+	initializing     map[string]bool // objects being constructed (composite literal): not yet shared
+	topEnv           map[string]envEntry
+	topChain         []*Contract
+	topEnss          []*Clause
+	topCt            *Contract
+	siteOrd          map[string]int
+	backLabels       map[string]bool
+	gotoLoops        map[string]*gotoLoop
+	specPos          token.Pos // when set, spec identifiers resolve in the scope at this source position
 }
 
 type acqPoint struct {
@@ -1323,7 +1323,11 @@ func (l *Lowerer) box(v *Term, from types.Type) *Term {
 	l.p.reg.Fun(bf, []string{s}, "Int")
 	l.p.reg.Fun(uf, []string{"Int"}, s)
 	b := App(bf, "Int", v)
-	l.assume(And(Eq(App(uf, s, b), v), Eq(App("dyntype", "Int", b), l.p.typeID(from)), Lt(IntLit(0), b)))
+	// boxing is injective and records the dynamic type (stated once per boxed type, and as a ground fact for
+	// terms without bound variables)
+	if !hasBound(v) {
+		l.assume(And(Eq(App(uf, s, b), v), Eq(App("dyntype", "Int", b), l.p.typeID(from)), Lt(IntLit(0), b)))
+	}
 	return b
 }
 
@@ -1343,8 +1347,14 @@ func (l *Lowerer) unbox(v *Term, to types.Type) *Term {
 	l.p.reg.Fun(uf, []string{"Int"}, s)
 	u := App(uf, s, v)
 	// boxing is injective: box(unbox(v)) == v when v has this dynamic type
-	l.assume(Implies(Eq(App("dyntype", "Int", v), l.p.typeID(to)), Eq(App(bf, "Int", u), v)))
-	l.wf(u, to)
+	// (facts about the box/unbox functions themselves: valid whatever the quantifier context, so stated without it)
+	if !hasBound(v) {
+		savedGuard := l.guard
+		l.guard = nil
+		l.assume(Implies(Eq(App("dyntype", "Int", v), l.p.typeID(to)), Eq(App(bf, "Int", u), v)))
+		l.wf(u, to)
+		l.guard = savedGuard
+	}
 	return u
 }
 
@@ -1524,9 +1534,24 @@ func (l *Lowerer) trBinary(x *ast.BinaryExpr) (*Term, types.Type) {
 		if ot != nil && at != nil && bt != nil {
 			_, ai := at.Underlying().(*types.Interface)
 			_, bi := bt.Underlying().(*types.Interface)
+			// a concrete value under a bound variable: equality of interface values unfolded (same dynamic
+			// type, equal value) instead of boxing a non-ground term
+			unfold := func(iface, conc *Term, ct types.Type) *Term {
+				eq := And(Not(Eq(iface, IntLit(0))), Eq(App("dyntype", "Int", iface), l.p.typeID(ct)), Eq(l.unbox(iface, ct), conc))
+				if x.Op == token.NEQ {
+					return Not(eq)
+				}
+				return eq
+			}
 			if ai && !bi && !isUntypedNil(bt) {
+				if hasBound(b) && !isRefLike(bt) {
+					return unfold(a, b, bt), types.Typ[types.Bool]
+				}
 				b = l.box(b, bt)
 			} else if bi && !ai && !isUntypedNil(at) {
+				if hasBound(a) && !isRefLike(at) {
+					return unfold(b, a, at), types.Typ[types.Bool]
+				}
 				a = l.box(a, at)
 			}
 		}
